@@ -9,6 +9,7 @@ import (
 	"github.com/biogo/hts/bam"
 	"github.com/biogo/hts/bgzf"
 	"github.com/biogo/hts/bgzf/cache"
+	"github.com/biogo/hts/bgzf/index"
 )
 
 // C09 — I/O faults never hang and are never swallowed.
@@ -110,7 +111,7 @@ func init() { register(theC09) }
 func (*c09) ID() string       { return "C09" }
 func (*c09) New() interface{} { return &c09Case{} }
 func (*c09) Rule() string {
-	return "fixed workload family (6 writer scripts x wc{0,1,2,4}; 6 reader histories x 3 files x rd{1,2,4} x {no cache, LRU(2)}); each workload is first run fault-free to count its underlying Write/Read/Seek calls N, then EVERY call index k<N+1 x fault kind {error without data, error after partial data} x {transient, persistent} is enumerated (exhaustive axis) and re-run under S seeded schedules with disk delays (quick S=6, thorough: cycling until the time budget ends); after the first error the client keeps using the API (remaining ops, Wait, Close). non-trivial: the fault fired while library goroutines other than the client were alive; distinct = (case, schedule signature)"
+	return "fixed workload family (6 writer scripts x wc{0,1,2,4}; 6 reader histories x 3 files x rd{1,2,4} x {no cache, LRU(2)}; index.NewChunkReader + reuse of the reader x 2 files x rd{1,2}; bam.Writer and bam.Reader workloads, the latter with a header of two members and several underlying reads); each workload is first run fault-free to count its underlying Write/Read/Seek calls N, then EVERY call index k<N+1 x fault kind {error without data, error after partial data} x {transient, persistent} is enumerated (exhaustive axis) and re-run under S seeded schedules with disk delays (quick S=6, thorough: cycling until the time budget ends); after the first error the client keeps using the API (remaining ops, Wait, Close). non-trivial: the fault fired while library goroutines other than the client were alive; distinct = (case, schedule signature)"
 }
 
 func c09WriterScripts() [][]WOp {
@@ -182,6 +183,13 @@ func (p *c09) Init(t *testing.T, seed uint64, tier string) {
 			}
 		}
 	}
+	for fi := range c09Files()[:2] {
+		fs := c09Files()[fi]
+		for _, rd := range []int{1, 2} {
+			f := fs
+			p.combos = append(p.combos, c09Combo{c: c09Case{Side: "chunkreader", File: &f, RD: rd, Kind: "read+seek"}})
+		}
+	}
 	// BAM-level workloads: a fixed header and record list
 	{
 		gt := NewTape(99, "C09-bam", 0)
@@ -200,6 +208,14 @@ func (p *c09) Init(t *testing.T, seed uint64, tier string) {
 		}
 		for _, rd := range []int{1, 2, 4} {
 			hh := h
+			// a header of several underlying reads (the reader's bufio layer
+			// asks for 4 KiB at a time), so that faults land inside it
+			ct := NewTape(98, "C09-bam-comment", 0)
+			co := make([]byte, 9000)
+			for i := range co {
+				co[i] = byte('a' + ct.Draw("work", 26))
+			}
+			hh.Comments = []string{string(co)}
 			p.combos = append(p.combos, c09Combo{c: c09Case{Side: "bamreader", Hdr: &hh, Recs: recs, RD: rd, Kind: "read+seek"}})
 		}
 	}
@@ -302,6 +318,8 @@ func (p *c09) exec(x *Exec, c *c09Case) (vd *Verdict, nW, nR, nS int) {
 		return p.execBAMWriter(x, c, vd)
 	case "bamreader":
 		return p.execBAMReader(x, c, vd)
+	case "chunkreader":
+		return p.execChunkReader(x, c, vd)
 	}
 	return p.execReader(x, c, vd)
 }
@@ -507,8 +525,11 @@ func (p *c09) execReader(x *Exec, c *c09Case, vd *Verdict) (*Verdict, int, int, 
 
 // bamImage builds the BAM file of a bamreader case with the independent encoders.
 func (c *c09Case) bamImage() []byte {
+	// the header spans two members: a fault on the second one strikes after
+	// bgzf.NewReader has started its read-ahead worker, inside the header decode
 	stream := c.Hdr.EncodeBAMHeader()
-	img := EncodeMember(stream, MemberOpts{Level: 1, OS: 0xff})
+	img := EncodeMember(stream[:len(stream)/2], MemberOpts{Level: 1, OS: 0xff})
+	img = append(img, EncodeMember(stream[len(stream)/2:], MemberOpts{Level: 1, OS: 0xff})...)
 	var cur []byte
 	for i := range c.Recs {
 		cur = append(cur, c.Recs[i].EncodeBAM()...)
@@ -593,6 +614,98 @@ func (p *c09) execBAMWriter(x *Exec, c *c09Case, vd *Verdict) (*Verdict, int, in
 	vd.NonTrivial = fired && res.Goroutines > 2
 	vd.Sample = map[string]interface{}{"side": c.Side, "wc": c.WC, "fault": c.Fault, "fired": file.Fired, "steps": x.Steps, "underlying_writes": nW}
 	return vd, nW, 0, 0
+}
+
+// execChunkReader: index.NewChunkReader over members 1..3 of the file under
+// every read/seek fault. Whatever happens, the bgzf.Reader must afterwards
+// still be an ordinary reader: a Seek to member 1 followed by reads returns
+// the rest of the data up to the true end or an error, never a clean end at
+// a block boundary (a ChunkReader that failed to open, or was closed, must
+// not leave the reader in Blocked mode).
+func (p *c09) execChunkReader(x *Exec, c *c09Case, vd *Verdict) (*Verdict, int, int, int) {
+	img := c.File.Build()
+	flat, err := NewFlat(img)
+	if err != nil {
+		panic(err)
+	}
+	file := &File{X: x, Name: "f", Data: img, MaxDelay: c.Delay}
+	if c.Fault.Op == "read" || c.Fault.Op == "seek" {
+		file.Faults = []Fault{c.Fault}
+	}
+	// the first and the last non-empty member after member 0
+	var mem []int
+	for i := 1; i < len(flat.Members); i++ {
+		if len(flat.Members[i].Payload) > 0 {
+			mem = append(mem, i)
+		}
+	}
+	if len(mem) < 2 {
+		panic("c09: chunkreader workload needs three non-empty members")
+	}
+	a, b := mem[0], mem[len(mem)-1]
+	chunks := []bgzf.Chunk{{Begin: bgzf.Offset{File: flat.Members[a].Off, Block: 1}, End: bgzf.Offset{File: flat.Members[b].Off, Block: 2}}}
+	want := flat.Data[flat.Start[a]+1 : flat.Start[b]+2]
+	rest := flat.Data[flat.Start[a]:]
+	var bad *Violation
+	x.Procs = 2
+	res := x.RunSim("chunkread", estReadSteps(len(img), 0, "read+seek", c.Delay)*4+400, func() {
+		r, err := bgzf.NewReader(file.As("read+seek"), c.RD)
+		if err != nil {
+			if len(file.Fired) == 0 {
+				bad = Mismatch("open", "NewReader on a valid file without fault = %v", err)
+			}
+			return
+		}
+		defer r.Close()
+		cr, err := index.NewChunkReader(r, chunks)
+		if err == nil {
+			got, rerr := io.ReadAll(cr)
+			if rerr == nil && !bytes.Equal(got, want) {
+				bad = Mismatch("chunkreader-data", "ChunkReader returned %d bytes and a clean end, the chunk holds %d (faults fired: %v)", len(got), len(want), file.Fired)
+			} else if rerr != nil && !bytes.HasPrefix(want, got) {
+				bad = Mismatch("chunkreader-data", "ChunkReader returned %d bytes that are not a prefix of the chunk, then %v", len(got), rerr)
+			} else if rerr != nil && len(file.Fired) == 0 {
+				bad = Mismatch("chunkreader-error", "ChunkReader failed without a fault: %v", rerr)
+			}
+			cr.Close()
+		} else if len(file.Fired) == 0 {
+			bad = Mismatch("chunkreader-open", "NewChunkReader without a fault = %v", err)
+		}
+		if bad != nil {
+			return
+		}
+		// the reader afterwards
+		if err := r.Seek(bgzf.Offset{File: flat.Members[a].Off}); err != nil {
+			return
+		}
+		got, rerr := io.ReadAll(r)
+		if rerr == nil && !bytes.Equal(got, rest) {
+			bad = Mismatch("early-eof", "after the ChunkReader (open error: %v) Seek to member %d and reading to the end returned %d of %d bytes and a clean end (faults fired: %v)", err, a, len(got), len(rest), file.Fired)
+		} else if rerr != nil && !bytes.HasPrefix(rest, got) {
+			bad = Mismatch("wrong-bytes", "after the ChunkReader the reader returned %d bytes that are not the file's, then %v", len(got), rerr)
+		}
+	})
+	nR, nS := file.Reads, file.Seeks
+	fired := len(file.Fired) > 0
+	if fired {
+		x.Probe("chunkreader_fault_fired")
+	}
+	if v, inc := StructuralViolation("chunkread", &res); v != nil || inc != "" {
+		vd.V, vd.Inconcl = v, inc
+		return vd, 0, nR, nS
+	}
+	if bad != nil {
+		vd.V = bad
+		return vd, 0, nR, nS
+	}
+	if len(res.LiveLib) > 0 {
+		vd.V = &Violation{Kind: "leak", Class: fmt.Sprintf("leak:chunkreader:%v", describeSites(res.LiveLib)),
+			Msg: fmt.Sprintf("after Reader.Close returned, %d library goroutine(s) remain: %v", len(res.LiveLib), describe(res.LiveLib))}
+		return vd, 0, nR, nS
+	}
+	vd.NonTrivial = fired && res.Goroutines > 1
+	vd.Sample = map[string]interface{}{"side": c.Side, "rd": c.RD, "fault": c.Fault, "fired": file.Fired, "steps": x.Steps, "underlying_reads": nR, "underlying_seeks": nS}
+	return vd, 0, nR, nS
 }
 
 func (p *c09) execBAMReader(x *Exec, c *c09Case, vd *Verdict) (*Verdict, int, int, int) {
